@@ -92,9 +92,45 @@ def _py(expr, rec):
         return ("raise", type(e).__name__)
 
 
+def _all_defined(expr, rec):
+    """the property's precondition: ALL sub-expressions are defined on the record (Python's and/or would hide an undefined operand behind a
+    short-circuit; the interpreted engine evaluates both operands).  Sub-expressions inside a generator expression are covered by the call around it."""
+    def subs(node):
+        if isinstance(node, ast.expr) and not isinstance(node, (ast.GeneratorExp,)):
+            yield node
+        if isinstance(node, ast.GeneratorExp):
+            return
+        for c in ast.iter_child_nodes(node):
+            if isinstance(c, ast.expr_context) or isinstance(c, (ast.operator, ast.cmpop, ast.boolop, ast.unaryop)):
+                continue
+            yield from subs(c)
+
+    for n in subs(ast.parse(expr, mode="eval").body):
+        if isinstance(n, (ast.Constant, ast.Name)):
+            continue
+        if _py(ast.unparse(n), rec)[0] != "val":
+            return False
+    return True
+
+
 def c07_eval(expr, engine):
     r = _run(engine, expr, _rec())
     return {"outcome": "raise" if r[0] == "raise" else repr(r[1]), "violates": False}
+
+
+def _shadows(expr):
+    """does a generator expression bind a name that an enclosing (or the same) generator expression has already bound?"""
+    def walk(node, live):
+        if isinstance(node, ast.GeneratorExp):
+            names = []
+            for g in node.generators:
+                if g.target.id in live or g.target.id in names:
+                    return True
+                names.append(g.target.id)
+            live = live | set(names)
+        return any(walk(c, live) for c in ast.iter_child_nodes(node))
+
+    return walk(ast.parse(expr, mode="eval"), frozenset())
 
 
 def c07_expr(expr, n=0, m=0, s="", t="", flag=False):
@@ -104,8 +140,8 @@ def c07_expr(expr, n=0, m=0, s="", t="", flag=False):
     bad = False
     for cls in ("Selector", "CompiledSelector"):
         out[cls] = _run(cls, expr, rec)
-        if py[0] == "val" and out[cls] != py and not (cls == "Selector" and out[cls][:2] == ("raise", "InvalidOperation") and " for " in expr):
-            bad = True  # (the interpreted engine may refuse a generator expression that re-uses a loop variable; a different answer is a violation)
+        if py[0] == "val" and out[cls] != py and not (cls == "Selector" and out[cls][:2] == ("raise", "InvalidOperation") and _shadows(expr)):
+            bad = True  # (the interpreted engine may refuse a generator expression that shadows a live loop variable; a different answer is a violation)
     out["violates"] = bad
     return out
 
@@ -238,7 +274,7 @@ def c07_differential(seed, n):
         expr = _gen(rnd, rnd.randint(0, 3))
         rec = _rec(rnd.choice([0, 1, 2, 3, 5, 80, 100]), rnd.choice([0, 1, 2, 3, 5, 7]), rnd.choice(["abc", "a", "", "ABC", "b"]), rnd.choice(["abc", "ABC", "a", ""]), rnd.random() < 0.5)
         py = _py(expr, rec)
-        if py[0] != "val":
+        if py[0] != "val" or not _all_defined(expr, rec):
             continue
         cases += 1
         for cls in ("Selector", "CompiledSelector"):
